@@ -319,13 +319,18 @@ func (ex *Exec) modComps(con *Contract) (map[string]bool, bool) {
 // ---------- local variable lookup for invariants ----------
 
 func (ex *Exec) lookupLocal(env *Env, name string) (Val, bool) {
+	return ex.lookupLocalX(env, name, false)
+}
+
+// lookupLocalX: skipParams = the current value of the source variable even if it is a (reassigned) parameter.
+func (ex *Exec) lookupLocalX(env *Env, name string, skipParams bool) (Val, bool) {
 	fn := ex.fn
 	if fn == nil {
 		return Val{}, false
 	}
 	// parameters (entry values)
 	for _, p := range fn.Params {
-		if p.Name() == name {
+		if p.Name() == name && !skipParams {
 			return Val{ex.val(p), GType{T: p.Type()}}, true
 		}
 	}
@@ -412,6 +417,13 @@ func (ex *Exec) lookupLocal(env *Env, name string) (Val, bool) {
 						return Val{v, GType{T: phi.Type()}}, true
 					}
 				}
+			}
+		}
+	}
+	if skipParams {
+		for _, p := range fn.Params {
+			if p.Name() == name {
+				return Val{ex.val(p), GType{T: p.Type()}}, true
 			}
 		}
 	}
